@@ -76,7 +76,7 @@ package stack
 // receiver, segment or endpoint objects, except an endpoint's inbound segment queue (a packet
 // looped back to a local endpoint is only enqueued; it is processed by that endpoint's
 // protocol goroutine). Anything else may change.
-//@   modifies everything_but("protocol/transport/tcp.sender", "protocol/transport/tcp.receiver", "protocol/transport/tcp.endpoint", "protocol/transport/tcp.segment"), structfamily("protocol/transport/tcp.endpoint", "segmentQueue"), ghost(tcpSegs), ghost(lastTCPFlags), ghost(lastTCPSeq), ghost(lastTCPAck), ghost(sentNonFin), ghost(sentFin), ghost(icmpSent), ghost(lastICMPType), ghost(lastICMPCode), ghost(lastICMPHdrLen), ghost(lastICMPPayloadArr), ghost(lastICMPPayloadOff), ghost(lastICMPPayloadLen)
+//@   modifies modset(NETSEND)
 
 // C06 at the hand-over from network to link layer: an IPv4 packet is handed down with a total
 // length field that equals the bytes it carries, and a header checksum that verifies.
@@ -106,3 +106,16 @@ package stack
 
 //@ func (*Stack).CheckLocalAddress props C07 C06 C11
 //@   trusted
+
+// ---------------------------------------------------------------------------
+// Named modifies sets (used as `modifies modset(NAME)`).
+
+// The ghost record of what was handed to the network layer.
+//@ func modset.NETGHOSTS
+//@   modifies ghost(tcpSegs), ghost(lastTCPFlags), ghost(lastTCPSeq), ghost(lastTCPAck), ghost(sentNonFin), ghost(sentFin)
+//@   modifies ghost(icmpSent), ghost(lastICMPType), ghost(lastICMPCode), ghost(lastICMPHdrLen), ghost(lastICMPPayloadArr), ghost(lastICMPPayloadOff), ghost(lastICMPPayloadLen)
+
+// The effect of handing a packet down (stack.Route.WritePacket), see the assumed frame there.
+//@ func modset.NETSEND
+//@   modifies everything_but("protocol/transport/tcp.sender", "protocol/transport/tcp.receiver", "protocol/transport/tcp.endpoint", "protocol/transport/tcp.segment"), structfamily("protocol/transport/tcp.endpoint", "segmentQueue")
+//@   modifies modset(NETGHOSTS)
